@@ -11,6 +11,7 @@ a (added)  the point constructors admit the whole interval (0, 1/2] down to the 
 c (added)  the bracketed solver returns only at an exact zero or when the bracket is below the x-tolerance (CFG exit rule)
 e (added)  L4/L5: J*Hess(H2) equals the linearised field at the point entry by entry; the frequency selection code is interpreted
            on the exact spectrum at the smallest catalogue ratio and at Earth-Moon (tolerances below the frequency gaps)
+f-load / f-facade (round 4)  in-place loaders adopt the loaded object whole or rebuild the services (C20.h re-filed); facade -> service argument binding (rules/common.py)
 """
 from __future__ import annotations
 
@@ -186,6 +187,9 @@ def run(tier):
     # the public facade binds every argument to the service parameter it is meant for (nominal swap rule, rules/common.py)
     from . import common as _common
     _common.facade_bindings(chk, "C04.f-facade", ['hiten.system.libration'], floor=6)
+    # a system loaded in place answers with the points AND the equations of the loaded mass ratio (C20.h's in-place loader rule re-filed)
+    from . import c20 as _c20
+    _c20._h_inplace_loaders(Relabel(chk, {"C20.h": "C04.f-load"}))
     return chk
 
 
